@@ -302,6 +302,103 @@ def run_cache_mode(ctx, rng, quick, scratch, cdir):
                 cache_streamed_any_history_sequences_not_judged=n_stream_wild)
 
 
+MONTHS = [b"Jan", b"Feb", b"Mar", b"Apr", b"May", b"Jun", b"Jul", b"Aug", b"Sep", b"Oct", b"Nov", b"Dec"]
+
+
+def yearless_cases(rng, n):
+    """logs whose timestamps lack a year, possibly across one or two year boundaries, with a modification time in
+    the year of the last message (or the year after): [(bs, bytes, {head line: (mon, day, h, m, s)}, mtime, kind,
+    window a|None)]"""
+    import calendar, time
+    out = []
+    for k in range(n):
+        y0 = rng.choice([2019, 2020, 2021, 2022])
+        t = calendar.timegm((y0, rng.choice([1, 6, 11, 12, 12]), rng.randrange(1, 28), rng.randrange(24), rng.randrange(60), 0, 0, 0, 0))
+        lines, tab, true_t = [], {}, []
+        for m in range(rng.choice([3, 5, 8, 12])):
+            while True:
+                t2 = t + rng.choice([1, 1, 61, 3600, 86400, 3 * 86400, 20 * 86400, 40 * 86400, 200 * 86400])
+                g = time.gmtime(t2)
+                if not (g.tm_mon == 2 and g.tm_mday == 29):
+                    break
+            t = t2
+            g = time.gmtime(t)
+            head = b"%s %2d %02d:%02d:%02d host app: %s\n" % (MONTHS[g.tm_mon - 1], g.tm_mday, g.tm_hour, g.tm_min, g.tm_sec,
+                                                          U.body(rng, rng.choice([3, 9, 20, 45]), False))
+            if head in tab:
+                continue
+            lines.append(head); tab[head] = (g.tm_mon, g.tm_mday, g.tm_hour, g.tm_min, g.tm_sec); true_t.append(t)
+            for _ in range(rng.choice([0, 0, 1, 2])):
+                lines.append(b" " + U.body(rng, rng.choice([2, 7, 30, 70]), False) + b"\n")
+        mtime = t + rng.choice([5, 3600, 86400, 400 * 86400])
+        kind = rng.choice(["plain", "plain", "gz", "bz2", "lz4"])
+        a = None
+        if kind != "plain" and rng.random() < 0.4:
+            a = rng.choice(true_t) + rng.choice([-1, 0, 0, 1])
+        out.append((rng.choice([64, 64, 128]), b"".join(lines), tab, mtime, kind, a))
+    return out
+
+
+def run_yearless_mode(ctx, rng, quick, scratch, cdir):
+    """B + C for the year-less driver: SyslogProcessor (block-zero analysis, process_missing_year with the file's
+    modification time, stage 3) vs Model/Caches.v c_stream_year (vm_compute) and vs the spec with the years
+    coq/Model/Year.v assign_years infers (python transliteration)"""
+    import time
+    cases = yearless_cases(rng, 14 if quick else 300)
+    allc = [(bs, f, {}, [("DY", "%d,%s,-" % (mt, "-" if a is None else a))], kind) for bs, f, tab, mt, kind, a in cases]
+    ans, tabs, cops = U.run_cache_cases(allc, scratch)
+    if ans is None:
+        ctx.obligation_broken("correspondence", "harness c02 year-less mode", tabs)
+        return {}
+    ccases, n_ok, n_rej, fails, boundaries = [], 0, 0, 0, 0
+    for (bs, f, tab, mt, kind, a), an in zip(cases, ans):
+        x = an[0] if an else dict(kind="ERR", what="no answer")
+        if x.get("kind") != "DY" or x.get("result") != "FileOk":
+            n_rej += 1
+            continue
+        n_ok += 1
+        year = time.gmtime(x["mtime"]).tm_year
+        heads = [l for l in U.py_lines(f) if l in tab]
+        asg = U.py_assign_years([tab[l] for l in heads], year)
+        boundaries += len(set(y for y, _ in asg)) - 1
+        fill = x.get("filler", {})
+        # the reverse pass stops at the first message (going up) that lies before --dt-after: the messages above it
+        # keep the filler year
+        stop = 0
+        if a is not None:
+            for i in range(len(heads) - 1, -1, -1):
+                if asg[i][1] < a:
+                    stop = i
+                    break
+        inst = {}
+        for i, l in enumerate(heads):
+            inst[l] = asg[i][1] if i >= stop else fill.get(l, 0)
+        _, gs = U.py_groups(f, inst)
+        exp = [(t, b"".join(ls)) for t, ls in U.py_win_scan(gs, a, None)]
+        got = [(it[3], bytes.fromhex(it[4])) for it in x["items"]]
+        if got != exp:
+            fails += 1
+            if fails <= 5:
+                ctx.failure(dict(file_hex=f.hex(), blocksz=bs, container=kind, mtime=mt, mtime_used=x["mtime"], dt_after=a,
+                                 yearless=True),
+                            "messages with the years of Model/Year.v assign_years: %r" % [t for t, _ in exp][:12],
+                            repr([t for t, _ in got][:12]), [])
+        years = sorted(set([year - j for j in range(0, 4)]))
+        op = ("DY", "%d,%s,-" % (mt, "-" if a is None else a), U.yearless_tables(tab, years), year)
+        ccases.append((bs, f, fill, [(op, x)], kind))
+    bad = U.eval_shards(ctx, os.path.join(cdir, "yearless"), U.coq_cache_cases, ccases, "model evaluation (year-less driver)")
+    dis = [(sh, k, c) for sh, k, c in (bad or []) if c < 10 ** 9 and k < 10 ** 9]
+    if dis:
+        sh, k, c = dis[0]
+        bs, f, fill, oa, kind = ccases[sh[k // 1000]]
+        ctx.obligation_broken("correspondence", "SyslogProcessor on a log without years vs Model/Caches.v c_stream_year",
+                              json.dumps(dict(file_hex=f.hex(), blocksz=bs, container=kind, op=oa[0][0][1], year=oa[0][0][3], code=c,
+                                              impl=repr(oa[0][1]["items"])[:600], disagreements=len(dis))))
+    return dict(yearless_files=len(cases), yearless_accepted=n_ok, yearless_rejected_by_gate=n_rej,
+                yearless_year_boundaries=boundaries, yearless_model_disagreements=len(dis), yearless_spec_failures=fails,
+                yearless_containers={k_: sum(1 for c_ in cases if c_[4] == k_) for k_ in ("plain", "gz", "bz2", "lz4")})
+
+
 def yearless_streamed(rng, n):
     """logs whose timestamps lack a year (`Jan  2 03:04:05 host app: ...`) stored as .gz / .bz2, several
     blocks long at the block sizes used: SyslogProcessor walks them BACKWARDS first (process_missing_year)
@@ -340,6 +437,7 @@ def run(ctx):
 
     # ---- B2 + C3: the cache model (first: its failing sequences are shrunk and lead the replay file)
     cache_cov = run_cache_mode(ctx, rng, quick, scratch, cdir)
+    cache_cov.update(run_yearless_mode(ctx, rng, quick, scratch, cdir))
 
     # ---- B + C1: in-process
     cases = inproc_cases(rng, 260 if quick else 6000)
